@@ -634,6 +634,59 @@ def snapshot_invariants(snap, hinfo=()):
 ID_RE = re.compile(r"\b\d+v\d+\b")
 
 
+STRICT_OBSERVER_ACTS = ("iter", "get", "getmany", "recv", "ents", "alloc")
+
+
+def rmc_projection(iops, mops, i):
+    """A difference that first shows at an `rmc` operation normally cannot confirm a violation (the order in which the
+    cascade despawns entities and removes handlers/events is unspecified, and handlers can make the outcome depend on it).
+    It CAN when the outcome is order-independent on this history: the announcement phase is a single event delivered
+    depth-first in priority order (C04, C07: nothing unspecified), and if every handler that runs after it - from the first
+    Despawn / RemoveHandler / RemoveTargetedEvent delivery on, on either side - only looks (no sender use, no take, no
+    write), then the final store, the registered names and the set of deliveries are determined. Returns the two
+    order-insensitive projections to compare, or None if the history does not qualify."""
+    specs = oracle.handler_specs(iops)
+
+    def observers_after_phase1(obs):
+        seen = False
+        for l in obs:
+            m = re.match(r"t h (\S+) (\S+)", l)
+            if not m:
+                continue
+            if not seen and re.match(r"(Despawn@|RemH\(|RemT\()", m.group(2)):
+                seen = True
+            if seen:
+                sp = specs.get(m.group(1))
+                if sp is None:
+                    return False
+                f = dict(t.split("=", 1) for t in iops[sp["index"]][0].split(" ")[1:] if "=" in t)
+                acts = [a.split(":")[0] for a in f.get("body", "").split(",") if a]
+                if any(a not in STRICT_OBSERVER_ACTS for a in acts):
+                    return False
+        return True
+
+    (op, il), (_, ml) = iops[i], mops[i]
+    for obs in (il, ml):
+        if any(l.startswith(("panic", "exit", "ub ", "assert ")) or l.startswith("ret panic") for l in obs):
+            return None
+        if any("?" in l for l in obs if l.startswith(("t ", "st "))):
+            return None
+        if not observers_after_phase1(obs):
+            return None
+
+    def proj(obs):
+        out = [l for l in obs if l.startswith("ret ")]
+        out += [l for l in obs if l.startswith("st ")]
+        for l in obs:
+            if l.startswith("reg "):
+                out.append(re.sub(r"=\d+v\d+", "", l))
+        # who ran for what (ids inside Add*/Rem* renders and payload serials are incidental)
+        out += sorted(re.sub(r"\(s\d+\)", "(s)", re.sub(r"\((\d+v\d+)\)", "(id)", l)) for l in obs if l.startswith("t h "))
+        return out
+
+    return proj(il), proj(ml)
+
+
 def canon(prop):
     """projection applied to both sides before the property-level comparison"""
 
@@ -666,4 +719,6 @@ def canon(prop):
             out = [re.sub(r"#\d+", "#", l) for l in out] if ch == "store" else out
         return out
 
+    if prop in ("C14", "C02", "C09", "C10", "C15", "C17"):
+        f.rmc = rmc_projection
     return f
